@@ -64,99 +64,89 @@ theorem DInv.mono_preds {taken : List Pred} {p : Pred} {defs : List SAnn}
     (h : ∀ d ∈ defs, ∀ q ∈ d.formula.preds, q ∈ taken) : ∀ d ∈ defs, ∀ q ∈ d.formula.preds, q ∈ ins taken p :=
   fun d hd q hq => mem_ins.mpr (Or.inl (h d hd q hq))
 
-theorem outlineStep_dinv (base : List Pred) (m : PlaceholderMap) (po : ProofOutline) (taken : List Pred) (a : SAnn)
-    (po' : ProofOutline) (taken' : List Pred) (hinv : DInv base po taken)
-    (h : outlineStep m (.ok (po, taken)) a = .ok (po', taken')) : DInv base po' taken' := by
+theorem outlineStep_dinv (base : List Pred) (m : PlaceholderMap) (po : ProofOutline) (taken lem : List Pred) (a : SAnn)
+    (po' : ProofOutline) (taken' lem' : List Pred) (hinv : DInv base po taken)
+    (h : outlineStep m (.ok (po, taken, lem)) a = .ok (po', taken', lem')) : DInv base po' taken' := by
   unfold outlineStep at h
   simp only at h
   split at h
   · split at h
     · split at h <;>
-        (injection h with h; injection h with h1 h2; subst h1; subst h2
+        (injection h with h; injection h with h1 h2; injection h2 with h2 _; subst h1; subst h2
          exact ⟨hinv.sub, hinv.fpreds, hinv.bpreds, hinv.fext, hinv.bext⟩)
     · cases h
     · cases h
     · cases h
   · split at h
     · split at h <;>
-        (injection h with h; injection h with h1 h2; subst h1; subst h2
+        (injection h with h; injection h with h1 h2; injection h2 with h2 _; subst h1; subst h2
          exact ⟨hinv.sub, hinv.fpreds, hinv.bpreds, hinv.fext, hinv.bext⟩)
     · cases h
     · cases h
     · cases h
   · split at h
     · rename_i p hdef
-      have hsub' : ∀ q ∈ base, q ∈ ins taken p := fun q hq => mem_ins.mpr (Or.inl (hinv.sub q hq))
-      have hnewp := definition_preds _ taken p hdef
-      have snocP : ∀ (defs : List SAnn), (∀ d ∈ defs, ∀ q ∈ d.formula.preds, q ∈ taken) →
-          ∀ d ∈ defs ++ [a.replacePlaceholders m], ∀ q ∈ d.formula.preds, q ∈ ins taken p := by
-        intro defs hd d hdm q hq
-        rcases List.mem_append.mp hdm with hdm | hdm
-        · exact mem_ins.mpr (Or.inl (hd d hdm q hq))
-        · simp only [List.mem_singleton] at hdm; subst hdm; exact hnewp q hq
-      split at h <;>
-        (injection h with h; injection h with h1 h2; subst h1; subst h2)
-      · exact ⟨hsub', snocP _ hinv.fpreds, DInv.mono_preds hinv.bpreds,
-          hinv.fext.snoc hinv.sub hinv.fpreds _ p hdef, hinv.bext⟩
-      · exact ⟨hsub', DInv.mono_preds hinv.fpreds, snocP _ hinv.bpreds, hinv.fext,
-          hinv.bext.snoc hinv.sub hinv.bpreds _ p hdef⟩
-      · exact ⟨hsub', snocP _ hinv.fpreds, snocP _ hinv.bpreds,
-          hinv.fext.snoc hinv.sub hinv.fpreds _ p hdef, hinv.bext.snoc hinv.sub hinv.bpreds _ p hdef⟩
+      split at h
+      · cases h
+      · have hsub' : ∀ q ∈ base, q ∈ ins taken p := fun q hq => mem_ins.mpr (Or.inl (hinv.sub q hq))
+        have hnewp := definition_preds _ taken p hdef
+        have snocP : ∀ (defs : List SAnn), (∀ d ∈ defs, ∀ q ∈ d.formula.preds, q ∈ taken) →
+            ∀ d ∈ defs ++ [a.replacePlaceholders m], ∀ q ∈ d.formula.preds, q ∈ ins taken p := by
+          intro defs hd d hdm q hq
+          rcases List.mem_append.mp hdm with hdm | hdm
+          · exact mem_ins.mpr (Or.inl (hd d hdm q hq))
+          · simp only [List.mem_singleton] at hdm; subst hdm; exact hnewp q hq
+        split at h <;>
+          (injection h with h; injection h with h1 h2; injection h2 with h2 _; subst h1; subst h2)
+        · exact ⟨hsub', snocP _ hinv.fpreds, DInv.mono_preds hinv.bpreds,
+            hinv.fext.snoc hinv.sub hinv.fpreds _ p hdef, hinv.bext⟩
+        · exact ⟨hsub', DInv.mono_preds hinv.fpreds, snocP _ hinv.bpreds, hinv.fext,
+            hinv.bext.snoc hinv.sub hinv.bpreds _ p hdef⟩
+        · exact ⟨hsub', snocP _ hinv.fpreds, snocP _ hinv.bpreds,
+            hinv.fext.snoc hinv.sub hinv.fpreds _ p hdef, hinv.bext.snoc hinv.sub hinv.bpreds _ p hdef⟩
     · cases h
     · cases h
     · cases h
   · cases h
   · cases h
 
-theorem outlineFold_dinv (base : List Pred) (m : PlaceholderMap) : ∀ (spec : Specification) (po : ProofOutline) (taken : List Pred)
-    (po' : ProofOutline) (taken' : List Pred), DInv base po taken →
-    spec.foldl (outlineStep m) (.ok (po, taken)) = .ok (po', taken') → DInv base po' taken' := by
+theorem outlineFold_dinv (base : List Pred) (m : PlaceholderMap) : ∀ (spec : Specification) (po : ProofOutline)
+    (taken lem : List Pred) (po' : ProofOutline) (taken' lem' : List Pred), DInv base po taken →
+    spec.foldl (outlineStep m) (.ok (po, taken, lem)) = .ok (po', taken', lem') → DInv base po' taken' := by
   intro spec
   induction spec with
-  | nil => intro po taken po' taken' hg h; simp only [List.foldl_nil] at h; injection h with h; injection h with h1 h2; subst h1; subst h2; exact hg
+  | nil =>
+    intro po taken lem po' taken' lem' hg h
+    simp only [List.foldl_nil] at h; injection h with h; injection h with h1 h2; injection h2 with h2 _
+    subst h1; subst h2; exact hg
   | cons a spec ih =>
-    intro po taken po' taken' hg h
+    intro po taken lem po' taken' lem' hg h
     simp only [List.foldl_cons] at h
-    have hstuck : ∀ (st : Outcome (ProofOutline × List Pred)), (∀ x, st ≠ .ok x) →
-        spec.foldl (outlineStep m) st = st := by
-      intro st hst
-      clear ih h
-      induction spec with
-      | nil => rfl
-      | cons b spec ihs =>
-        simp only [List.foldl_cons]
-        have : outlineStep m st b = st := by
-          cases st with
-          | ok x => exact absurd rfl (hst x)
-          | err e => rfl
-          | panic s => rfl
-          | timeout => rfl
-        rw [this]; exact ihs
-    cases hs : outlineStep m (.ok (po, taken)) a with
+    cases hs : outlineStep m (.ok (po, taken, lem)) a with
     | ok x =>
-      obtain ⟨po1, taken1⟩ := x
+      obtain ⟨po1, taken1, lem1⟩ := x
       rw [hs] at h
-      exact ih po1 taken1 po' taken' (outlineStep_dinv base m po taken a po1 taken1 hg hs) h
-    | err e => rw [hs, hstuck _ (fun x hx => by cases hx)] at h; cases h
-    | panic s => rw [hs, hstuck _ (fun x hx => by cases hx)] at h; cases h
-    | timeout => rw [hs, hstuck _ (fun x hx => by cases hx)] at h; cases h
+      exact ih po1 taken1 lem1 po' taken' lem' (outlineStep_dinv base m po taken lem a po1 taken1 lem1 hg hs) h
+    | err e => rw [hs, outlineFold_stuck m spec _ (fun x hx => by cases hx)] at h; cases h
+    | panic s => rw [hs, outlineFold_stuck m spec _ (fun x hx => by cases hx)] at h; cases h
+    | timeout => rw [hs, outlineFold_stuck m spec _ (fun x hx => by cases hx)] at h; cases h
 
 /-- the definitions of either direction of an accepted outline can be made true by changing the
     interpretation outside the predicates that were taken when the outline started -/
 theorem proofOutlineFrom_defsExt (spec : Specification) (taken : List Pred) (m : PlaceholderMap) (po : ProofOutline)
     (h : proofOutlineFrom spec taken m = .ok po) :
     DefsExt taken po.forwardDefinitions ∧ DefsExt taken po.backwardDefinitions := by
-  rw [proofOutlineFrom_eq] at h
-  cases hf : spec.foldl (outlineStep m) (.ok ({}, taken)) with
+  unfold proofOutlineFrom at h
+  cases hf : spec.foldl (outlineStep m) (.ok ({}, taken, [])) with
   | ok x =>
-    obtain ⟨po1, taken1⟩ := x
+    obtain ⟨po1, taken1, lem1⟩ := x
     simp only [hf] at h
     injection h with h; subst h
     have h0 : DInv taken ({} : ProofOutline) taken := by
       refine ⟨fun q hq => hq, ?_, ?_, DefsExt.nil _, DefsExt.nil _⟩
       · intro d hd; cases hd
       · intro d hd; cases hd
-    have := outlineFold_dinv taken m spec {} taken po1 taken1 h0 hf
+    have := outlineFold_dinv taken m spec {} taken [] po1 taken1 lem1 h0 hf
     exact ⟨this.fext, this.bext⟩
   | err e => simp [hf] at h
   | panic s => simp [hf] at h
